@@ -2900,3 +2900,147 @@ func ruleGridSizedFromEveryCell(c *eng.Ctx) {
 		c.Ok(R, "xlsx.(*Reader).parseWorksheet#dimension", fn.Pos(), "not evaluated: no running maximum of parsed cell references found")
 	}
 }
+
+// R18.16 [C18]: the clause of R17.4 for the multi-part readers (sheets, slides and chapters are decoded one after another)
+func ruleFreshDecodeTargetParts(c *eng.Ctx) {
+	freshDecodeTarget(c, "R18.16-FRESH-DECODE-TARGET", map[string]bool{"xlsx": true, "pptx": true, "epubdoc": true}, 10)
+}
+
+// ---------------------------------------------------------------------------------------------------------------
+// R19.12 a child node set aside during a walk over siblings is not overwritten by the next one.
+
+// R19.12 [C19]
+func ruleSetAsideChildrenAllKept(c *eng.Ctx) {
+	const R = "R19.12-SET-ASIDE-CHILDREN-ALL-KEPT"
+	c.Rule(R, "in the HTML readers a walk over sibling nodes (c = c.NextSibling) that sets the current node aside in a variable for use after the walk leaves the walk at once (break/return) or collects into a slice: a plain variable keeps only the last node with that tag, and HTML allows any number of them (a table may have several tbody elements, and the parser adds an implied one), so the earlier ones and their text are dropped", 0, 1)
+	n := 0
+	for _, fn := range c.P.ModuleFuncs() {
+		if fn.Pkg == nil || fn.Blocks == nil {
+			continue
+		}
+		sp := eng.ShortPath(fn.Pkg.Pkg.Path())
+		if sp != "htmldoc" && sp != "epubdoc" && !strings.Contains(sp, eng.PositivePkg) {
+			continue
+		}
+		for _, b := range fn.Blocks {
+			// sibling cursors: phi(x.FirstChild, cur.NextSibling)
+			var cursors []*ssa.Phi
+			for _, in := range b.Instrs {
+				ph, ok := in.(*ssa.Phi)
+				if !ok {
+					break
+				}
+				for _, e := range ph.Edges {
+					if fr, ok := eng.LoadOfField(e); ok && fr.Field == "NextSibling" && fr.Base == ssa.Value(ph) {
+						cursors = append(cursors, ph)
+					}
+				}
+			}
+			for _, cur := range cursors {
+				n++
+				body := loopBody(b)
+				for _, in := range b.Instrs {
+					ph, ok := in.(*ssa.Phi)
+					if !ok {
+						break
+					}
+					if ph == cur || !types.Identical(ph.Type(), cur.Type()) {
+						continue
+					}
+					// a loop-carried variable that takes the cursor's value somewhere in the body
+					takes := false
+					seen := map[ssa.Value]bool{}
+					var walk func(v ssa.Value)
+					walk = func(v ssa.Value) {
+						if seen[v] {
+							return
+						}
+						seen[v] = true
+						if v == ssa.Value(cur) {
+							takes = true
+							return
+						}
+						if p2, ok := v.(*ssa.Phi); ok && body[p2.Block()] && p2 != ph {
+							for _, e := range p2.Edges {
+								walk(e)
+							}
+						}
+					}
+					for i, e := range ph.Edges {
+						if body[b.Preds[i]] {
+							walk(e)
+						}
+					}
+					if !takes {
+						continue
+					}
+					// used after the walk
+					usedAfter := false
+					for _, r := range *ph.Referrers() {
+						if !body[r.Block()] {
+							usedAfter = true
+						}
+						if p3, ok := r.(*ssa.Phi); ok && !body[p3.Block()] {
+							usedAfter = true
+						}
+					}
+					if !usedAfter {
+						continue
+					}
+					c.Viol(R, fmt.Sprintf("%s#%s", eng.FuncName(fn), ph.Comment), ph.Pos(), "the variable "+ph.Comment+" is set to the current sibling inside the walk at "+c.P.Pos(cur.Pos())+" without leaving it and is used afterwards: of several siblings that qualify only the last one is processed, the text of the others is dropped")
+				}
+			}
+		}
+	}
+	c.Ok(R, "scope#walks", token.NoPos, fmt.Sprintf("%d sibling walks scanned in htmldoc and epubdoc", n))
+}
+
+// ---------------------------------------------------------------------------------------------------------------
+// R2.24 a nesting counter that a recursive function raises comes back down on every way out.
+
+// R2.24 [C02, C19]
+func ruleDepthCountersBalanced(c *eng.Ctx) {
+	const R = "R2.24-DEPTH-COUNTERS-BALANCED"
+	c.Rule(R, "every function that belongs to a recursive cycle and adds 1 to a field whose name says depth or level takes the 1 off again on every path from the increment to a return (directly, in a deferred closure or in a small helper): a counter that only some exits restore counts visited nodes instead of nesting, reaches the limit on long flat input and the walk silently stops there", 3, 1)
+	n := 0
+	for _, scc := range eng.RecursiveSCCs(c.P) {
+		for _, fn := range scc {
+			if fn.Blocks == nil {
+				continue
+			}
+			fields := map[string]bool{}
+			eng.Instrs(fn, false, func(in ssa.Instruction) {
+				st, ok := in.(*ssa.Store)
+				if !ok {
+					return
+				}
+				fr, ok := eng.AsField(st.Addr)
+				if !ok {
+					return
+				}
+				low := strings.ToLower(fr.Field)
+				if !strings.Contains(low, "depth") && !strings.Contains(low, "level") && !strings.Contains(low, "nesting") {
+					return
+				}
+				b, ok := st.Val.(*ssa.BinOp)
+				if !ok || b.Op != token.ADD {
+					return
+				}
+				if k, isC := eng.ConstInt(b.Y); !isC || k != 1 {
+					return
+				}
+				if f2, ok := eng.LoadOfField(b.X); !ok || f2.Field != fr.Field {
+					return
+				}
+				fields[fr.Field] = true
+			})
+			for f := range fields {
+				n++
+				depthBalanceIn(c, R, eng.FuncName(fn)+"."+f, fn, f, false)
+			}
+		}
+	}
+	if n == 0 {
+		c.Undec(R, "module#counters", token.NoPos, "no recursive function with a depth counter found")
+	}
+}
